@@ -564,3 +564,34 @@ def replay_cluster(R, payload):
     bad = r.get("result") not in ("ok", "demo-agrees")
     print("replay: %s (process schedules are not deterministic: a passing replay does not prove absence)" % ("still failing" if bad else "not reproduced"))
     return 1 if bad else 0
+
+
+def one_node_probe(R, name, seed, text, explanation, nodes=1):
+    """a REAL cluster of `nodes` node(s) started from cluster.json (explicit RaftAddr on odd seeds, the shipped redis.conf defaults: 16 databases), the cluster engine's
+    start-up probes (SELECT of another database; a pipeline written by a client that half-closes at once), then a short two-client workload.  Used by the checks of
+    properties that are not about replication but hold "in cluster mode too" (C20 selection, C14 / C03 replies on the cluster path)."""
+    binary, err = core.build_harness()
+    if binary is None:
+        return
+    sc = scenario(name, nodes, 2, 1200, [])
+    with core.Workdir() as wd0:
+        wd = wd0.lower()
+        os.makedirs(wd, exist_ok=True)
+        try:
+            server, err, dt = build_server(wd)
+            R.oblige("the real server builds from the repository working tree (go build -tags verif .)", "build", server is not None, err or "%.1fs" % dt)
+            if server is None:
+                return
+            reps = run_engine(binary, server, os.path.join(wd, "probe"), seed, [sc], 180)
+        finally:
+            reap(wd)
+            if wd != wd0:
+                import shutil
+                shutil.rmtree(wd, ignore_errors=True)
+    bad = [r for r in reps if r.get("result") != "ok"]
+    R.oblige(text, "exploration", len(reps) == 1 and not bad, "; ".join((p.get("kind", "") + ": " + p.get("detail", ""))[:300] for r in bad for p in (r.get("problems") or [])[:2]))
+    R.add_cases(sum(r.get("ops", 0) or 0 for r in reps), len(reps) - len(bad))
+    for r in bad[:1]:
+        p0 = (r.get("problems") or [dict(kind=r.get("result"), detail="")])[0]
+        R.violation("cluster-" + name, dict(kind="impl-violates-spec", engine="cluster", summary=("%s: %s: %s" % (name, p0.get("kind"), p0.get("detail")))[:800], report=r,
+                                            scenario=sc, seed_used=seed, explanation=explanation))
